@@ -160,6 +160,7 @@ fn tr_name(p: v2::Protocol) -> &'static str {
         v2::Protocol::Unspecified => "Unspecified",
         v2::Protocol::Stream => "Stream",
         v2::Protocol::Datagram => "Datagram",
+        _ => "Other",
     }
 }
 
